@@ -54,6 +54,32 @@ ROOTS = ['coverage::find|coverage::const_iterator (uint64_t) const', 'coverage::
          'coverage::add', 'coverage::remove', 'coverage::is_covered', 'coverage::is_overlap',
          'coverage::intersect', 'coverage::add_all', 'coverage::remove_all']
 
+import copy
+ASET_CFG = copy.deepcopy(CFG)
+ASET_CFG['names'].update({
+    'pred_containsp_aset_aset::result': 'w_contains_aset_aset', 'pred_overlapsp_aset_aset::result': 'w_overlaps_aset_aset',
+    'op_overlap_aset_aset::operate': 'w_overlap', 'op_length_aset::operate': 'w_length',
+    'op_add_aset_aset::operate': 'w_add_aset_aset', 'op_sub_aset_aset::operate': 'w_sub_aset_aset',
+    'value_aset::get_coverage|coverage &()': 'value_aset_cov', 'value_aset::get_coverage|const coverage &() const': 'value_aset_cov_const',
+})
+ASET_CFG['types'].update({
+    r'std::unique_ptr<value_aset(, std::default_delete<value_aset>)?>': 'value_aset *',
+    r'std::unique_ptr<value_cst(, std::default_delete<value_cst>)?>': 'value_cst *'})
+ASET_CFG['extern'].update({
+    r'coverage::add': 'coverage_add', r'coverage::remove': 'coverage_remove', r'coverage::is_covered': 'coverage_is_covered',
+    r'coverage::is_overlap': 'coverage_is_overlap', r'coverage::intersect': 'coverage_intersect',
+    r'coverage::add_all': 'coverage_add_all', r'coverage::remove_all': 'coverage_remove_all',
+    r'std::unique_ptr<value_(aset|cst).*>::operator->': {'c': 'UPTR_ARROW', 'by_value': True},
+    r'std::unique_ptr<value_(aset|cst).*>::operator\*': {'c': 'UPTR_ARROW', 'by_value': True},
+    r'std::move': 'VERIF_MOVE'})
+ASET_CFG['record_copy'] = {'coverage': 'coverage_copy'}
+ASET_CFG['loop_contracts'] = {}
+ASET_CFG['bodies_prelude'] = '#include "aset_prelude.h"\n'
+ASET_CFG['globals'] = {'value_aset::vtype': 'g_vtype_aset', 'value_cst::vtype': 'g_vtype_cst',
+                       'dec_constant_dom': '(*(const zw_cdom *)0)'}
+ASET_ROOTS = ['pred_containsp_aset_aset::result', 'pred_overlapsp_aset_aset::result', 'op_overlap_aset_aset::operate',
+              'op_length_aset::operate', 'op_add_aset_aset::operate', 'op_sub_aset_aset::operate']
+
 INPUTS = ['start', 'length', 'g_x', 'arr[*', 'arr2[*', 'c.__base0.len', 'o.__base0.len']
 
 
@@ -64,7 +90,7 @@ def jobs(tier):
     def bounded(name, n, **kw):
         kw.setdefault('timeout', 1500)
         J.append(Job('bounded_%s_n%d' % (name, n), bsrc, 'hb_' + name, includes=inc, inputs=INPUTS,
-                     defines=['C16_NMAX=%d' % n, 'VEC_NEW_CAP=%d' % (2 * n + 2)], kind='bounded', unwind=2 * n + 4,
+                     defines=['C16_NMAX=%d' % n, 'VEC_NEW_CAP=%d' % (2 * n + 2)], kind='bounded', unwind=n + 4,
                      cbmc_args=['--object-bits', '10'],
                      note='bounded: at most %d ranges per set, all 64-bit addresses (symbolic probe address)' % n, **kw))
     if tier == 'quick':
@@ -75,6 +101,19 @@ def jobs(tier):
                  'add_all': 2, 'remove_all': 2, 'canonical': 4}
     for f, n in sizes.items():
         bounded(f, n)
+    wsrc = [os.path.join(HERE, 'words.c'), os.path.join(HERE, 'vecmodel.c'), os.path.join(OUT, 'cov_bodies.c'),
+            os.path.join(OUT, 'aset_bodies.c')]
+    def word(name, n, **kw):
+        kw.setdefault('timeout', 1800)
+        J.append(Job('bounded_word_%s_n%d' % (name, n), wsrc, 'hw_' + name, includes=inc,
+                     inputs=['x', 'arr[*', 'arr2[*', 'a.cov.__base0.len', 'b.cov.__base0.len'],
+                     defines=['C16_NMAX=%d' % n, 'VEC_NEW_CAP=%d' % (2 * n + 2)], kind='bounded', unwind=2 * n + 3, mem_gb=24,
+                     cbmc_args=['--object-bits', '10'],
+                     note='bounded: at most %d ranges per set, all 64-bit addresses; Zwerg word over the lowered coverage bodies' % n, **kw))
+    wsizes = {'contains': 2, 'overlaps': 2, 'add': 1, 'sub': 1, 'length': 3} if tier == 'quick' else \
+             {'contains': 3, 'overlaps': 3, 'overlap': 1, 'add': 2, 'sub': 2, 'length': 5}
+    for f, n in wsizes.items():
+        word(f, n)
     ssrc = [os.path.join(HERE, 'harness.c'), os.path.join(HERE, 'vecmodel.c'), os.path.join(OUT, 'cov_bodies.c')]
     def safe(name, harness, enforce, replace=(), lc=False, **kw):
         J.append(Job('safe_' + name, ssrc, harness, enforce=enforce, replace=replace, loop_contracts=lc,
@@ -108,9 +147,11 @@ def spec_files():
 
 def prepare(tier):
     lw = vlib.extract('cov', 'libzwerg/coverage.cc', CFG, ROOTS, OUT)
+    aw = vlib.extract('aset', 'libzwerg/builtin-aset.cc', ASET_CFG, ASET_ROOTS, OUT)
     build_native()
-    return {'unit': 'libzwerg/coverage.cc', 'functions': lw.report['functions'],
-            'externals': lw.report['externals']}
+    return {'units': ['libzwerg/coverage.cc', 'libzwerg/builtin-aset.cc'],
+            'functions': lw.report['functions'] + aw.report['functions'],
+            'externals': lw.report['externals'] + aw.report['externals']}
 
 
 def build_native():
